@@ -146,7 +146,7 @@ def canon_default(p):
     return ("value", type(v).__name__, v)
 
 
-def diff_param(path, want, got, out, kind):
+def diff_param(path, want, got, out, kind, opts=None):
     wt, gt = want.get("typ"), got.get("typ")
     if kind == "argparse" and wt is None and "default" not in want:
         wt = "str"
@@ -161,6 +161,8 @@ def diff_param(path, want, got, out, kind):
     wd, gd = canon_doc(want.get("doc")), canon_doc(got.get("doc"))
     if wd != gd:
         out.append({"path": path + ".doc", "want": wd, "got": gd})
+    if kind in STYLES and opts is not None and not opts.get("emit_default_doc", True):
+        return  # without default text the defaults are by construction not in a docstring (C01's quantifier)
     wv, gv = canon_default(want), canon_default(got)
     if wv[0] == "absent" and kind in ("class",):
         # N_class (the property's own documented normalisation): no default -> zero value of the type, or None
@@ -182,7 +184,7 @@ def diff_param(path, want, got, out, kind):
         out.append({"path": path + ".default", "want": wv, "got": gv})
 
 
-def diff_ir(ir_in, ir_out, kind):
+def diff_ir(ir_in, ir_out, kind, opts=None):
     out = []
     if " ".join((ir_in.get("doc") or "").split()) != " ".join((ir_out.get("doc") or "").split()):
         out.append({"path": "doc", "want": ir_in.get("doc"), "got": ir_out.get("doc")})
@@ -192,7 +194,7 @@ def diff_ir(ir_in, ir_out, kind):
         out.append({"path": "params.<names>", "want": win, "got": wout})
     for n in win:
         if n in (ir_out.get("params") or {}):
-            diff_param("params." + n, ir_in["params"][n], ir_out["params"][n], out, kind)
+            diff_param("params." + n, ir_in["params"][n], ir_out["params"][n], out, kind, opts)
     rin = (ir_in.get("returns") or {}).get("return_type")
     rout = (ir_out.get("returns") or {}).get("return_type")
     if kind == "argparse" and rin is not None and "default" not in rin:
@@ -201,5 +203,5 @@ def diff_ir(ir_in, ir_out, kind):
         if not (rin is None and rout == {}):
             out.append({"path": "returns.<presence>", "want": rin, "got": rout})
     elif rin is not None:
-        diff_param("returns", rin, rout, out, kind)
+        diff_param("returns", rin, rout, out, kind, opts)
     return out
